@@ -29,7 +29,7 @@ pub fn def() -> PropDef {
     PropDef {
         id: "C11",
         level: "model_checking",
-        rule: "explicit-state search over two real LiveActors (never run; driven through their own handlers) sharing a document: events {Trigger(node, NewNeighbor|SyncReport|DirectJoin) -> sync_with_peer (an approved dial is logged instead of being spawned), Deliver(dial) -> the acceptor's accept_sync_request, Lose(dial), for a declined dial the two independent completions (RemoteAbort at the initiator, AcceptError::Abort at the acceptor), for an accepted dial InitiatorDone(ok|fail) and AcceptorDone(ok|fail) in any order; Leave(node) (the coordination part of leaving the document; at most one per history and final within it); Resync dials emitted by the handlers are captured from the dial log}, up to N dials; invariants S1 (at most one accepted dial with both ends unfinished), S2 (crossing dials: exactly one Allow and one Reject(AlreadySyncing)), S3 (a refused sync report leads to exactly one follow-up dial at the end of the busy period, never a spurious one), S4 (in every quiescent state both nodes are Idle for the pair and will dial and accept), S5 (a document outside the sync set — never joined, or left, whatever completions of older sessions arrive afterwards — is declined NotFound and not dialed); canonical state = both coordination snapshots + multiset of in-flight dials and pending completions; non-trivial = histories with a declined, lost or failed dial or two dials in flight at once",
+        rule: "explicit-state search over two real LiveActors (never run; driven through their own handlers) sharing a document: events {Trigger(node, NewNeighbor|SyncReport|DirectJoin) -> sync_with_peer (an approved dial is logged instead of being spawned), Deliver(dial) -> the acceptor's accept_sync_request, Lose(dial), for a declined dial the two independent completions (RemoteAbort at the initiator, AcceptError::Abort at the acceptor), for an accepted dial InitiatorDone(ok|fail) and AcceptorDone(ok | exchange failed: AcceptError::Sync | exchange ran, closing failed: AcceptError::Close) in any order; Leave(node) (the coordination part of leaving the document; at most one per history and final within it); Resync dials emitted by the handlers are captured from the dial log}, up to N dials; invariants S1 (at most one accepted dial with both ends unfinished), S2 (crossing dials: exactly one Allow and one Reject(AlreadySyncing)), S3 (a refused sync report leads to exactly one follow-up dial at the end of the busy period, never a spurious one), S4 (in every quiescent state both nodes are Idle for the pair and will dial and accept), S5 (a document outside the sync set — never joined, or left, whatever completions of older sessions arrive afterwards — is declined NotFound and not dialed); canonical state = both coordination snapshots + multiset of in-flight dials and pending completions; non-trivial = histories with a declined, lost or failed dial or two dials in flight at once",
         assumptions: &[
             "besides the coordination state the handlers read only whether a content download of the document is queued (explored both ways, constant within a search) and the subscriber list (empty), which is why merging on the snapshot preserves futures",
             "network behaviour is abstracted as: a dial is delivered or lost; the two ends of a session complete independently, successfully or not",
@@ -68,6 +68,10 @@ pub enum Ev {
     Lose(usize),
     InitDone(usize, bool),
     AccDone(usize, bool),
+    /// the acceptor's end of an accepted dial finishes with a failure of the *closing* step (the
+    /// exchange ran, then the streams could not be closed: `AcceptError::Close`); for the
+    /// statement the same as `AccDone(d, false)`
+    AccCloseFail(usize),
     /// the node stops syncing the document (coordination part of `leave`)
     Leave(u8),
     /// the node syncs the document again (coordination part of `start_sync`)
@@ -679,7 +683,12 @@ fn exec(hist: &[Ev], max_dials: usize, max_leaves: u32, mode: u8) -> Option<(Bad
                     completion_at = Some(n);
                     observed = format!("InitDone({d},{ok})");
                 }
-                Ev::AccDone(d, ok) => {
+                Ev::AccDone(..) | Ev::AccCloseFail(_) => {
+                    let (d, ok, close_fail) = match *ev {
+                        Ev::AccDone(d, ok) => (d, ok, false),
+                        Ev::AccCloseFail(d) => (d, false, true),
+                        _ => unreachable!(),
+                    };
                     let dial = m.dials.get(d)?.clone();
                     let acc = 1 - dial.from;
                     let peer = ids[dial.from as usize];
@@ -689,7 +698,7 @@ fn exec(hist: &[Ev], max_dials: usize, max_leaves: u32, mode: u8) -> Option<(Bad
                             acc_pending: true,
                             ..
                         } => {
-                            if ok {
+                            if ok || close_fail {
                                 return None;
                             }
                             Err(AcceptError::Abort {
@@ -703,6 +712,12 @@ fn exec(hist: &[Ev], max_dials: usize, max_leaves: u32, mode: u8) -> Option<(Bad
                         } => {
                             if ok {
                                 Ok(finished(peer))
+                            } else if close_fail {
+                                Err(AcceptError::Close {
+                                    peer,
+                                    namespace: Some(ns()),
+                                    error: anyhow::anyhow!("synthetic failure while closing"),
+                                })
                             } else {
                                 Err(AcceptError::Sync {
                                     peer,
@@ -733,7 +748,7 @@ fn exec(hist: &[Ev], max_dials: usize, max_leaves: u32, mode: u8) -> Option<(Bad
                 let new = take_dials();
                 let (d, as_acceptor) = match *ev {
                     Ev::InitDone(d, _) => (d, false),
-                    Ev::AccDone(d, _) => (d, true),
+                    Ev::AccDone(d, _) | Ev::AccCloseFail(d) => (d, true),
                     _ => unreachable!(),
                 };
                 let activity: Activity = (d, as_acceptor);
@@ -946,6 +961,7 @@ fn exec(hist: &[Ev], max_dials: usize, max_leaves: u32, mode: u8) -> Option<(Bad
                     if *acc_pending {
                         enabled.push(Ev::AccDone(d, true));
                         enabled.push(Ev::AccDone(d, false));
+                        enabled.push(Ev::AccCloseFail(d));
                     }
                 }
             }
@@ -979,6 +995,7 @@ fn events(max_dials: usize, all_reasons: bool) -> Vec<Ev> {
         v.push(Ev::InitDone(d, false));
         v.push(Ev::AccDone(d, true));
         v.push(Ev::AccDone(d, false));
+        v.push(Ev::AccCloseFail(d));
     }
     v
 }
@@ -1019,7 +1036,7 @@ fn run(ctx: &Ctx, report: &mut Report) {
                 Ok(Some((bad, key, observed, enabled))) => {
                     evals += 1;
                     let mask: Vec<bool> = evs.iter().map(|e| enabled.contains(e)).collect();
-                    let nontrivial = h.iter().any(|e| matches!(e, Ev::Lose(_) | Ev::InitDone(_, false) | Ev::AccDone(_, false) | Ev::Leave(_)))
+                    let nontrivial = h.iter().any(|e| matches!(e, Ev::Lose(_) | Ev::InitDone(_, false) | Ev::AccDone(_, false) | Ev::AccCloseFail(_) | Ev::Leave(_)))
                         || h.windows(2).any(|w| matches!((w[0], w[1]), (Ev::Trigger(a, _), Ev::Trigger(b, _)) if a != b));
                     if nontrivial {
                         nt += 1;
